@@ -39,6 +39,7 @@ def main():
                 continue
             scratch = tempfile.mkdtemp(prefix="fpbsweep.")
             shutil.copy("/verif/known_findings.txt", scratch)
+            shutil.copytree(os.environ.get("FPSWEEP_SPEC", "/verif/spec"), os.path.join(scratch, "spec"))
             rc, out = sh(BIN + " -property all -tier quick -repo %s -verif %s" % (WT, scratch))
             hits = []
             for ln in out.split("\n"):
